@@ -6,6 +6,9 @@ import os
 VERIF = os.path.dirname(os.path.dirname(os.path.abspath(__file__)))
 
 CHECKS = {
+    "C18": ("runtime monitor of static no-arbitrage relations and cross-method agreement (COS, FFT, Black-Scholes closed form, VG vs CGMY(y=0)) on generated models of a documented box; tolerances calibrated on 3000 models with a 10x margin",
+            "Held-on-observed: parity, bounds, monotonicity, convexity, digital range/monotonicity, density positivity and mass, cdf, scalar = vector strikes, price(product), COS = FFT = closed form.",
+            "Empirical parameter box (not a proof of truncation error); strikes in the middle 40% of the COS range.", "3/C18"),
     "C10": ("reference-oracle monitor: levy_exponent on real/imaginary arguments vs Levy-Khintchine quadrature of the declared triplet; stated cumulants vs Cauchy integrals of the exponent; recorded drift across generated sequences of representation changes; martingale identity through CF, direct-simulation drift and chain (TILDE) drift",
             "Held-on-observed: all families incl. the five CGMY branches, 12 real + 6 imaginary arguments per model, cumulants 1..6, 6-step conversion sequences with return, three martingale routes.",
             "Quadrature of the density trusted (stable series for the compensated integrand); arguments with n - activity < 0.25 skipped.", "3/C10"),
